@@ -5,7 +5,37 @@ import time
 from lib.common import *
 
 
+def _cache_key(cfg):
+    import hashlib
+    h = hashlib.sha1()
+    for f in ("Writer.tla", "MCWriter.tla", cfg):
+        h.update(open(os.path.join(SPEC, f), "rb").read())
+    return h.hexdigest()[:16]
+
+
 def export_writer(cfg, tag, timeout=3000, heap="12g"):
+    """TLC run + graph export of the Writer model. The parsed result is cached on disk keyed by the content of
+    the specification files and the configuration (the model graph does not depend on /repo)."""
+    import pickle
+    cdir = os.path.join(WORK, "cache")
+    os.makedirs(cdir, exist_ok=True)
+    cpath = os.path.join(cdir, f"writer-{_cache_key(cfg)}.pkl")
+    if os.path.exists(cpath):
+        try:
+            res, edges, runs = pickle.load(open(cpath, "rb"))
+            log(f"[tlc] MCWriter/{cfg}: cached export ({res.generated} generated, {res.distinct} distinct, depth {res.depth})")
+            return res, edges, runs
+        except Exception:
+            pass
+    out = _export_writer(cfg, tag, timeout, heap)
+    if out[0].violation is None:
+        out[0].out = ""
+        out[0].prints = {}
+        pickle.dump(out, open(cpath, "wb"))
+    return out
+
+
+def _export_writer(cfg, tag, timeout=3000, heap="12g"):
     res = tlc("MCWriter", cfg, tag, workers=1, timeout=timeout, heap=heap)
     if res.violation:
         return res, None, None
